@@ -25,7 +25,8 @@ FAULT_KINDS = ['acct_sub/negative', 'acct_wd/negative', 'acct_wd/over', 'p_sub/n
                'get_cash_unknown', 'get_mv_unknown', 'get_eq_unknown', 'get_dict_unknown', 'get_acct_cash_ccy',
                'new_broker', 'update/backwards-clock', 'update/negative-mark', 'pf_sub/backwards-clock',
                'pf_sub/negative', 'pf_wd/backwards-clock', 'pf_wd/negative', 'pf_wd/over', 'pf_txn/backwards-clock',
-               'pf_mark/negative', 'pf_mark/backwards-clock']
+               'pf_mark/negative', 'pf_mark/backwards-clock', 'pf_txn/behind-position-clock',
+               'pf_mark/behind-position-clock']
 
 
 def plan(tier, seed):
